@@ -33,11 +33,12 @@ pub struct Case {
 
 fn mk_mode() -> impl Strategy<Value = u32> {
     prop_oneof![
-        4 => Just(0o755u32),
-        2 => Just(0o700u32),
-        1 => Just(0o1777u32),
+        8 => Just(0o755u32),
+        4 => Just(0o700u32),
+        3 => Just(0o1777u32),
         1 => Just(0o000u32),
-        1 => Just(0o777u32),
+        3 => Just(0o777u32),
+        2 => Just(0o750u32),
         1 => Just(0o2755u32),
         1 => Just(0o4755u32),
         1 => Just(0o40755u32),
@@ -51,7 +52,17 @@ pub fn strategy(concurrent: bool) -> impl Strategy<Value = Case> {
         prop_oneof![3 => Just(Kcfg::NoMountApi), 3 => Just(Kcfg::NoOpenat2NoMountApi), 1 => Just(Kcfg::NoOpenat2), 1 => Just(Kcfg::Full)],
         prop_oneof![8 => Just(false), 1 => Just(true)],
         prop_oneof![3 => Just(0o022u32), 1 => Just(0o077u32), 1 => Just(0u32), 1 => Just(0o027u32)],
-        (new_path(), 0u8..4, vec(any::<u8>(), 3..=3), 2usize..4),
+        (
+            // mostly "<something in the tree>/<one to three fresh or odd components>"
+            prop_oneof![
+                3 => (any::<u16>(), any::<u8>(), 0u8..10).prop_map(|(sel, name, trail)| NewPath::NewIn { sel, name, trail }),
+                1 => path_recipe().prop_map(NewPath::Any),
+                6 => (any::<u16>(), vec(any::<u8>(), 1..4), 0u8..10).prop_map(|(sel, names, trail)| NewPath::Deep { sel, names, trail }),
+            ],
+            0u8..4,
+            vec(any::<u8>(), 3..=3),
+            2usize..4,
+        ),
         mk_mode(),
         prop_oneof![4 => Just(false), 1 => Just(true)],
         vec(any::<u8>(), 0..40),
